@@ -324,7 +324,11 @@ class CentrallyBin(Factory, Container):
 
     @inheritdoc(Container)
     def zero(self):
-        return CentrallyBin([c for c, v in self.bins], self.quantity, self.value, self.nanflow.zero())
+        out = CentrallyBin([c for c, v in self.bins], self.quantity, self.value, self.nanflow.zero())
+        if self.value is None:
+            # reloaded from JSON or built with ``ed``: no template to generate the bins from
+            out.bins = [(c, v.zero()) for c, v in self.bins]
+        return out
 
     @inheritdoc(Container)
     def __add__(self, other):
